@@ -141,6 +141,14 @@ def explicit_plan(draw):
         params[0]["schema"], params[0]["witness"] = {"type": "integer", "minimum": 1, "maximum": 9}, 5
     k = draw(st.integers(2, n - 1))
     chosen = draw(st.permutations(params))[:k]
+    if loc != "query" and draw(st.integers(0, 3)) == 0:
+        # focus: the explicit values cover every parameter that could be violated, only plain strings stay generated
+        for p in params[1:]:
+            p["schema"], p["witness"] = {"type": "string"}, "s"
+        params[0]["schema"], params[0]["witness"] = {"type": "integer", "minimum": 1, "maximum": 9}, 5
+        params[1]["schema"], params[1]["witness"] = {"type": "string", "enum": ["a", "b"]}, "a"
+        chosen = params[:2]
+        params[2]["required"] = draw(st.booleans())
     values = {p["name"]: (p["witness"] if loc == "query" else c01_text(p["witness"])) for p in chosen}
     if loc == "header" and draw(st.booleans()):
         values = dict([("X-Undeclared", "zz")] + list(values.items())) if draw(st.booleans()) else dict(list(values.items()) + [("X-Undeclared", "zz")])
@@ -232,12 +240,12 @@ def effective_params(plan):
     return params
 
 
-def component_status(plan, case, loc, root, *, canonical_only):
+def component_status(plan, case, loc, root, *, canonical_only, skip=frozenset()):
     """('invalid'|'valid', reason) for the non-body container ``loc`` of ``case`` against the plan's declared parameters."""
     dialect = plan["dialect"]
     cont = c01.container_of(case, loc) or {}
     for p in effective_params(plan):
-        if p["in"] != loc:
+        if p["in"] != loc or p["name"] in skip:
             continue
         key = next((k for k in cont if (k.lower() == p["name"].lower() if loc == "header" else k == p["name"])), None)
         if key is None:
@@ -384,14 +392,17 @@ def check_negative(ctx: Ctx, inp) -> None:
                     # "actually present": what the prepared request carries (None items of a list are dropped by the HTTP client)
                     ctx.disagree("negative-component-absent:query:vanishes-on-the-wire", f"query {dict(cont)!r} is labelled negative but the prepared request has no query string", input=inp, case=summary)
                     continue
-                raw, why = component_status(plan, case, loc, root, canonical_only=False)
+                # values the user gave are valid by construction and not what was negated: a header / cookie value given as the
+                # string "5" for an integer parameter is no raw violation
+                given = {k for kw, vals in explicit.items() if container_name[kw] == loc for k in vals}
+                raw, why = component_status(plan, case, loc, root, canonical_only=False, skip=frozenset(given) if loc != "query" else frozenset())
                 declared = {p["name"]: p for p in effective_params(plan) if p["in"] == loc}
                 if raw == "valid":
                     extra = [k for k in cont if not any((k.lower() == n.lower() if loc == "header" else k == n) for n in declared)]
                     present = {k: v for k, v in cont.items() if k not in extra}
                     if extra:
                         sig = "negative-component-valid:only-undeclared-parameters-added"
-                    elif any(spells_json_literal(v) for v in present.values()):
+                    elif any(spells_json_literal(v) for k, v in present.items() if k not in given):  # (values the user gave are not what was negated)
                         # the container holds the already stringified values: `null`, `true`, `0` are valid strings
                         sig = "negative-component-valid-on-the-wire"
                     elif any(hinges_on_draft4_reading_of_exclusive_bounds(p["schema"], cont.get(n), plan) for n, p in declared.items() if n in cont):
